@@ -247,7 +247,7 @@ def contexts_for(tokens, value: int | None = None) -> list[str]:
         if value is not None and 0 <= value < 0x10000:
             ctx.append("rmw")       # unsuffixed read-modify-write operand: width follows the value
     if lexable_in_directive(tokens):
-        ctx += ["dl", "assign", "symbol", "macro", "if", "loop_body", "macro_body_twice", "sparse_loop", "hollow_scopes", "loop_local_constant", "after_forward_label_argument", "scope_in_loop", "assigned_in_conditional", "macro_applied_in_loop", "symbol_before_reassignment"]
+        ctx += ["dl", "assign", "symbol", "macro", "if", "loop_body", "macro_body_twice", "sparse_loop", "hollow_scopes", "loop_local_constant", "after_forward_label_argument", "scope_in_loop", "assigned_in_conditional", "macro_applied_in_loop", "symbol_before_reassignment", "nearer_definition_later", "reopened_namespace"]
         if value is not None and -2 <= value <= 6:
             ctx.append("for")       # loop bound: the body is assembled max(0, value) times
         if value is not None and 0 <= value < 0x100:
@@ -282,6 +282,13 @@ def program_for(ctx: str, text: str) -> str:
     if ctx == "after_forward_label_argument":
         # an argument that is a plain expression keeps its value during expansion also when an earlier argument names a label defined later
         return head + f".macro mf(pl, pp) {{\n.if pp {{\n.db 1\n}} else {{\n.db 0\n}}\n.dl pp\n.dw pl\n}}\nmf(later_q, {text})\nlater_q:\n"
+    if ctx == "nearer_definition_later":
+        # three nested scopes, the name defined at two levels, the nearer definition written further down; an early use from the innermost
+        # scope (a condition) sees the outer one, the expression emitted later sees the nearer one
+        return head + f"zq := 1\n{{\n{{\n.if zq {{\n.db 0x11\n}}\n.dl ({text}) + zq\n{{\n.dl ({text}) + zq\n}}\n}}\nzq = 5\n}}\n.dl ({text}) + zq\n"
+    if ctx == "reopened_namespace":
+        # a namespace written in two parts: the second part reads a member of the first by its qualified name, an unrelated outer symbol has the member's name
+        return head + f"zw = 9\n.scope zcfg {{\nzw = ({text})\n}}\n.scope zcfg {{\n.dl zcfg.zw\nzh = zcfg.zw * 2\n.dl zw\n}}\n.dl zcfg.zh\n"
     if ctx == "symbol_before_reassignment":
         # a variable assigned again further down: a `=` symbol, a data directive and an operand that mention it all see the same (final) value
         return head + f"zv := 1\nzz = ({text}) + zv\nzv := 2\n.dl zz\n.dl ({text}) + zv\nzv := 3\n"
@@ -320,6 +327,10 @@ def expected_bytes(ctx: str, v: int) -> bytes:
         return le(v + 1, 3) + le(v + 3, 3) + le(v + 5, 3) + le(v + 7, 3)
     if ctx == "after_forward_label_argument":
         return (b"\x01" if v != 0 else b"\x00") + le(v, 3) + le(0x8006, 2)
+    if ctx == "nearer_definition_later":
+        return b"\x11" + le(v + 5, 3) * 2 + le(v + 1, 3)
+    if ctx == "reopened_namespace":
+        return le(v, 3) + le(9, 3) + le(2 * v, 3)
     if ctx == "symbol_before_reassignment":
         return le(v + 3, 3) * 2
     if ctx == "assigned_in_conditional":
